@@ -2,7 +2,7 @@
 import collections
 import re
 
-from mirlib import AnchorMissing, describe_operand, describe_place, describe_rvalue, dom_guards, _suffix_match
+from mirlib import op_place, AnchorMissing, describe_operand, describe_place, describe_rvalue, dom_guards, _suffix_match
 from rules.common import where
 
 META = {
@@ -247,8 +247,13 @@ def run(ctx):
         # sign tables
         wb = writer_fns["write_big_int"]
         wsign = {}
+        # the sign byte is what write_u8 is given (whatever the local is called)
+        sb_local = None
+        for c in wb.calls:
+            if c.name == "write_u8" and len(c.args) >= 2 and op_place(c.args[1]) is not None:
+                sb_local = wb.copy_root(c.args[1])
         for i, j, p, rv, line in wb.assigns():
-            if describe_place(wb, p) == "sign_byte":
+            if sb_local is not None and p[0] == sb_local and not p[1]:
                 d = describe_rvalue(wb, rv)
                 lab = [l for dd, l, _ in dom_guards(wb, i) if "Sign::Minus" in dd]
                 if d.isdigit() and lab:
